@@ -87,4 +87,8 @@ def fix_type_references(schema: Schema) -> Schema:
     # WARN: This will lead to recursive calls until no type needs to be updated
     # through on_schema calling Schema._replace_types_and_directives which
     # calls fix_type_references.
-    return _HealSchemaVisitor(schema).on_schema(schema)
+    healed = _HealSchemaVisitor(schema).on_schema(schema)
+    # When no type had to be rebuilt the call above does not refresh the
+    # indexes derived from the type map, which may still hold swapped out types.
+    healed._invalidate_and_rebuild_caches()
+    return healed
